@@ -550,7 +550,7 @@ func C02(run *core.Run) {
 		}
 	}
 	// the closed-program generator of C01 at default and keep-names configuration
-	m := run.N(600, 20000)
+	m := run.N(1500, 20000)
 	for i := 0; i < m; i++ {
 		r := run.CaseRand("closed", i, m*3/5)
 		src, _ := genJSProgram(r)
